@@ -73,8 +73,10 @@ class MessageToUserTlv(AbstractTlvBase):
     @classmethod
     def unpack(cls, data: bytes) -> MessageToUserTlv:
         msg_to_user_tlv = cls.__empty()
-        msg_to_user_tlv.tlv = CfdpTlv.unpack(data)
-        msg_to_user_tlv.check_type(MessageToUserTlv.TLV_TYPE)
+        tlv = CfdpTlv.unpack(data)
+        if tlv.tlv_type != cls.TLV_TYPE:
+            raise TlvTypeMissmatch(tlv.tlv_type, cls.TLV_TYPE)
+        msg_to_user_tlv.tlv = tlv
         return msg_to_user_tlv
 
     @classmethod
